@@ -50,6 +50,10 @@ def Method.ofString? : String → Option Method
   | "corr_cov" => some .corrCov
   | _ => none
 
+/-- the code under which the generated dispatch leaves (`Gen.C07.normKind`, `hasShift`, …) know a method -/
+def Method.code : Method → Nat
+  | .cosine => 0 | .corr => 1 | .rhoA => 2 | .spearman => 3 | .cosineCov => 4 | .corrCov => 5
+
 /-- the measures that need the covariance `V` of the RDM entries -/
 def Method.needsV : Method → Bool
   | .cosineCov | .corrCov => true
@@ -176,7 +180,10 @@ def rms (x : List α) : α := HasSqrt.sqrt (mean (x.map fun a => a * a))
     or constant RDM stays the zero vector while pooling (its similarity to every RDM is 0 by the
     guard of `_cosine`, it must not contribute to the pool).  Exact comparison: an RDM of tiny but
     non-zero scale is normalised like any other. -/
-def nonzero (s : α) : α := if 0 < s then s else 1
+def nonzero (s : α) : α := Rsa.Gen.C07.nonzeroGuard s
+
+/-- the twin of `_nonzero` in `util/pooling.py` (its own generated leaf) -/
+def nonzeroP (s : α) : α := Rsa.Gen.C07.poolingNonzeroGuard s
 
 /-- cosine normaliser: `x / _nonzero(sqrt(nanmean(x**2)))`; the division is the generated leaf -/
 def cosF (x : List α) (a : α) : α := Rsa.Gen.C07.cosScale a (nonzero (rms x))
@@ -198,10 +205,12 @@ def minL : List α → α
 def shiftF (x : List α) (a : α) : α := Rsa.Gen.C07.corrShift a (minL x)
 
 /-- the per-RDM normaliser of `pool_rdm` -/
-def normF : Method → List α → α → α
-  | .cosine | .cosineCov => cosF
-  | .corr | .corrCov => corrF
-  | .rhoA | .spearman => rankF
+def normF (m : Method) : List α → α → α :=
+  match Rsa.Gen.C07.normKind m.code with
+  | 1 => cosF
+  | 2 => corrF
+  | 3 => rankF
+  | _ => fun _ a => a
 
 /-- apply a normaliser to a vector without missing values -/
 def applyD (f : List α → α → α) (x : List α) : List α := x.map (f x)
@@ -209,9 +218,7 @@ def applyD (f : List α → α → α) (x : List α) : List α := x.map (f x)
 /-- `pool_rdm` on vectors without missing values -/
 def poolD (m : Method) (rows : List (List α)) : List α :=
   let avg := meanRows (rows.map (applyD (normF m)))
-  match m with
-  | .corr | .corrCov => applyD shiftF avg
-  | _ => avg
+  if Rsa.Gen.C07.hasShift m.code = 1 then applyD shiftF avg else avg
 
 /-- whitened cosine for `sigma_k = None`: `r₁ᵀV⁻¹r₂/√(r₁ᵀV⁻¹r₁ r₂ᵀV⁻¹r₂)`; a vector of zero
     length in the whitened space gives 0 (the `_cosine` guard of the library's shortcut) -/
@@ -234,15 +241,17 @@ def simV : Method → List (List α) → List α → List α → α
     divided by its *whitened* norm `√(rᵀV⁻¹r)` (after mean removal for `corr_cov`), averaged, and
     for `corr_cov` shifted by the minimum plus 0.01 (generated leaves) -/
 def poolW (m : Method) (V : List (List α)) (rows : List (List α)) : List α :=
-  match m with
-  | .corrCov =>
+  match Rsa.Gen.C07.poolingNormKind m.code with
+  | 5 =>
     let avg := meanRows (rows.map fun r =>
       let c := r.map (fun a => Rsa.Gen.C07.poolingCorrCenter a (mean r))
-      c.map (fun a => Rsa.Gen.C07.poolingCorrCovScale a (nonzero (HasSqrt.sqrt (dot c (solve V c))))))
-    avg.map (fun a => Rsa.Gen.C07.poolingCorrCovShift a (minL avg))
+      c.map (fun a => Rsa.Gen.C07.poolingCorrCovScale a (nonzeroP (HasSqrt.sqrt (dot c (solve V c))))))
+    if Rsa.Gen.C07.poolingHasShift m.code = 1 then
+      avg.map (fun a => Rsa.Gen.C07.poolingCorrCovShift a (minL avg))
+    else avg
   | _ =>
     meanRows (rows.map fun r =>
-      r.map (fun a => Rsa.Gen.C07.poolingCosCovScale a (nonzero (HasSqrt.sqrt (dot r (solve V r))))))
+      r.map (fun a => Rsa.Gen.C07.poolingCosCovScale a (nonzeroP (HasSqrt.sqrt (dot r (solve V r))))))
 
 end dense
 
@@ -297,9 +306,7 @@ variable [LT α] [DecidableLT α] [HasSqrt α] [Neg α] [LE α] [DecidableLE α]
 /-- `pool_rdm(rdms, method)` as coded -/
 def poolO (m : Method) (rows : List (List (Option α))) : List (Option α) :=
   let avg := nanMeanRows (rows.map (applyO (normF m)))
-  match m with
-  | .corr | .corrCov => applyO shiftF avg
-  | _ => avg
+  if Rsa.Gen.C07.hasShift m.code = 1 then applyO shiftF avg else avg
 
 /-- `compare(a, b, method)` for one pair once `_parse_input_rdms` has removed the common
     missing entries -/
@@ -319,16 +326,58 @@ def vFor (m : Method) (nC : Nat) (mask : List Bool) : List (List α) :=
 /-- `boot_noise_ceiling(rdms, method, rdm_descriptor)`; `none` = `ValueError` -/
 def bootNoiseCeilingO (m : Method) (o : Folds.Obj) (rows : List (List (Option α))) : Option (α × α) :=
   if commonMask rows then
-    some (bootNoiseCeilingG (poolO m) (simO m (vFor m o.nC (maskOf (rows.headD [])))) rows o)
+    -- `for i in range(len(ceil_set))`: the folds the loop visits (generated leaf `bootLoopLen`)
+    let folds := (looFolds o).take (Rsa.Gen.C07.bootLoopLen (looFolds o).length)
+    some (bounds (bootTerms (poolO m) (simO m (vFor m o.nC (maskOf (rows.headD [])))) rows folds))
   else none
 
 /-- `cv_noise_ceiling(rdms, ceil_set, test_set, method, pattern_descriptor)`; `none` = `ValueError` -/
 def cvNoiseCeilingO (m : Method) (o : Folds.Obj) (rows : List (List (Option α)))
-    (folds : List CvFold) : Option (α × α) :=
+    (folds0 : List CvFold) : Option (α × α) :=
+  -- `for i in range(len(ceil_set))` (generated leaf `cvLoopLen`)
+  let folds := folds0.take (Rsa.Gen.C07.cvLoopLen folds0.length)
   if commonMask rows && cvShapesOk (poolO m) o rows folds then
     some (cvNoiseCeilingG (poolO m) (fun k td => simO m (vFor m k (maskOf (td.headD [])))) o rows folds)
   else none
 
 end opt
+
+/-! ## 4. (round 3) the coded linear-CKA shortcut, group weights, pooling from the present entries -/
+
+section round3
+variable {α : Type} [Add α] [Sub α] [Mul α] [Div α] [Zero α] [One α] [NatCast α]
+  [LT α] [DecidableLT α] [HasSqrt α] [Neg α] [LE α] [DecidableLE α] [Max α] [Min α]
+
+/-- `compare(x, y, method)` for one pair of *complete* RDM vectors of `n` conditions **as coded**:
+    with `sigma_k=None` (the noise ceilings never pass one) the whitened measures do not solve
+    `V s = r` but take the linear-CKA shortcut `_cov_weighting` + `_cosine` (C03's
+    `whitenedCosFastCoded`, grand mean through C03's leaf); `corr_cov` removes the means first -/
+def simFast (n : Nat) : Method → List α → List α → α
+  | .cosineCov, x, y => whitenedCosFastCoded n x y
+  | .corrCov, x, y => whitenedCosFastCoded n (center x) (center y)
+  | m, x, y => simV m [] x y
+
+/-- number of RDMs that share the `rdm_descriptor` value of RDM `j` -/
+def groupSize (o : Folds.Obj) (j : Nat) : Nat :=
+  ((List.range o.nR).filter (fun i => o.rdesc i == o.rdesc j)).length
+
+/-- number of groups (`len(np.unique(rdm_descriptor))`) -/
+def nGroups (o : Folds.Obj) : Nat := (Folds.uniq (Folds.descList o.nR o.rdesc)).length
+
+/-- the weight RDM `j` has in both bounds of `boot_noise_ceiling` (mean within the group, then mean
+    over groups): `1 / (#groups · size of its group)` -/
+def groupWeight (o : Folds.Obj) (j : Nat) : α := 1 / ((nGroups o : α) * (groupSize o j : α))
+
+/-- specification object for unequal groups: the *weighted* pool `Σ_j w_j · normalised(r_j)` -/
+def poolWeighted (f : List α → α → α) (w : Nat → α) (rows : List (List α)) : List α :=
+  vsumP (rows.headD []).length
+    ((List.range rows.length).map fun j => (applyD f (rows.getD j [])).map (· * w j))
+
+/-- specification object for missing entries: pool the non-missing entries (no NaN anywhere), then
+    put the result back at the positions the first RDM has -/
+def poolDense (m : Method) (l : List (List (Option α))) : List (Option α) :=
+  expand (maskOf (l.headD [])) (poolD m (l.map present))
+
+end round3
 
 end Rsa.Ceiling
